@@ -10,7 +10,6 @@ EXTENDS Analyzer
 
 Leaf(t)     == Mk([type |-> t], <<>>)
 RefTo(r)    == Mk(("$ref" :> r), <<>>)
-ListOf(s)   == Mk([__list |-> "1"], [i \in { ToString(j - 1) : j \in DOMAIN s } |-> s[CHOOSE j \in DOMAIN s : ToString(j - 1) = i]])
 MapOf(k, v) == Mk(<<>>, (k :> v))
 Obj(ch)     == Mk([type |-> "object"], ch)
 
